@@ -111,16 +111,39 @@ def _rng_array(seed: int, n: int, typ: str, raw: bool = False) -> np.ndarray:
     raise ValueError(typ)
 
 
+# NetCDF default fill values: a value equal to the fill value itself cannot be told from "unset" (inherent to the file
+# format), every other value of the type can and has to come back.
+FILL = {'i4': -2147483647, 'i8': -9223372036854775806, 'f4': float(np.float32(9.969209968386869e36)),
+        'f8': 9.969209968386869e36}
+NEAR_FILL = {
+    'i4': [-(2**31), -2147483646, -2147483000, -2147462000, 2**31 - 1],
+    'i8': [-(2**63), -(2**63) + 1, -(2**63) + 3, -(2**63) + 2**40, 2**63 - 1],
+    'f8': [9.9692e36, 9.969209968386868e36, 9.96920996838687e36, 9.97e36, -9.969209968386869e36, 1e37],
+    'f4': [9.9692e36, 9.9693e36, 9.97e36, -9.969209968386869e36, 1e37],
+}
+
+# flight identifiers: 64-bit; small ones, ones beyond 32 bits, and ones beyond what a float64 holds exactly
+FLIGHT_ID = st.one_of(st.integers(0, 2**40), st.integers(2**53, 2**63 - 2**24), st.integers(2**31 - 3, 2**32 + 3))
+
+
 def scalar_strategy(typ: str):
     if typ == 'f8':
-        return st.floats(-1e30, 1e30, allow_nan=False, allow_infinity=False)
+        return st.one_of(st.floats(-1e30, 1e30, allow_nan=False, allow_infinity=False),
+                         st.floats(allow_nan=False, allow_infinity=False).filter(lambda v: v != FILL['f8']),
+                         st.sampled_from(NEAR_FILL['f8']))
     if typ == 'f4':
         # float64 values: most are not exactly representable in the float32 field they are assigned to
-        return st.floats(-1e30, 1e30, allow_nan=False, allow_infinity=False)
+        return st.one_of(st.floats(-1e30, 1e30, allow_nan=False, allow_infinity=False),
+                         st.floats(-3.4e38, 3.4e38).filter(lambda v: float(np.float32(v)) != FILL['f4']),
+                         st.sampled_from(NEAR_FILL['f4']))
     if typ == 'i4':
-        return st.integers(-2_000_000_000, 2_000_000_000)
+        return st.one_of(st.integers(-2_000_000_000, 2_000_000_000),
+                         st.integers(-(2**31), 2**31 - 1).filter(lambda v: v != FILL['i4']),
+                         st.sampled_from(NEAR_FILL['i4']))
     if typ == 'i8':
-        return st.integers(-(2**62), 2**62)
+        return st.one_of(st.integers(-(2**62), 2**62),
+                         st.integers(-(2**63), 2**63 - 1).filter(lambda v: v != FILL['i8']),
+                         st.sampled_from(NEAR_FILL['i8']))
     if typ == 'str':
         return st.text(alphabet='abcXYZ 019_-', min_size=1, max_size=12)
     raise ValueError(typ)
@@ -153,6 +176,10 @@ def field_value(draw, f: dict, species_pool=None, allow_unset=True):
     if dims == 'TM':
         return {'m': [draw(scalar_strategy(typ)) for _ in MODES]}
     sp = draw(species_subset(species_pool))
+    if f['required'] and draw(st.integers(0, 7)) == 0:
+        # a required species-indexed field holding no species at all: reads back as an empty mapping (an optional one
+        # would be indistinguishable from "unset")
+        sp = []
     if dims == 'TS':
         return {'s': {s: draw(scalar_strategy(typ)) for s in sp}}
     if dims == 'TSP':
@@ -173,7 +200,7 @@ def traj_desc(draw, fdefs=(), n_range=(1, 130), identified=None, species_pool=No
         'extras': {},
     }
     if identified is None and fid is None:
-        d['flight_id'] = draw(st.one_of(st.none(), st.integers(0, 2**40)))
+        d['flight_id'] = draw(st.one_of(st.none(), FLIGHT_ID))
     for fdef in fdefs:
         vals = []
         for f in fdef['fields']:
